@@ -49,3 +49,64 @@ fn xorshift_seed_from_u64_is_pcg32() {
     pcg32_fill(x, &mut seed);
     assert!(rand_xorshift::XorShiftRng::seed_from_u64(x) == rand_xorshift::XorShiftRng::from_seed(seed));
 }
+
+// ---- C08/C09: XorShiftRng overrides from_rng / try_from_rng: redraw only on an all-zero block, state == LE words of the
+// first block that is not all zero, source advanced by exactly the blocks drawn; try_from_rng agrees with from_rng on a
+// source that does not fail and returns the source's error (never a generator) when the source fails. ----
+use rand_core::{RngCore, TryRngCore};
+pub struct Blocks { pub calls: usize, pub b: [[u8; 16]; 3], pub fail_at: usize }
+impl RngCore for Blocks {
+    fn next_u32(&mut self) -> u32 { panic!() }
+    fn next_u64(&mut self) -> u64 { panic!() }
+    fn fill_bytes(&mut self, dest: &mut [u8]) {
+        assert!(dest.len() == 16 && self.calls < 3);
+        dest.copy_from_slice(&self.b[self.calls]);
+        self.calls += 1;
+    }
+}
+#[derive(Debug, PartialEq, Clone, Copy)]
+pub struct E(pub u32);
+impl core::fmt::Display for E { fn fmt(&self, _f: &mut core::fmt::Formatter<'_>) -> core::fmt::Result { Ok(()) } }
+pub struct TryBlocks { pub s: Blocks, pub err: E }
+impl TryRngCore for TryBlocks {
+    type Error = E;
+    fn try_next_u32(&mut self) -> Result<u32, E> { panic!() }
+    fn try_next_u64(&mut self) -> Result<u64, E> { panic!() }
+    fn try_fill_bytes(&mut self, dest: &mut [u8]) -> Result<(), E> {
+        if self.s.calls == self.s.fail_at { self.s.calls += 1; return Err(self.err); }
+        self.s.fill_bytes(dest);
+        Ok(())
+    }
+}
+fn any_blocks() -> Blocks {
+    let b: [[u8; 16]; 3] = kani::any();
+    kani::assume(b[2] != [0u8; 16]);       // at most two leading all-zero blocks (the loop is unbounded by design)
+    Blocks { calls: 0, b, fail_at: usize::MAX }
+}
+fn first_nonzero(b: &[[u8; 16]; 3]) -> usize { if b[0] != [0u8; 16] { 0 } else if b[1] != [0u8; 16] { 1 } else { 2 } }
+
+#[kani::proof]
+#[kani::unwind(20)]
+fn xorshift_from_rng_redraws_only_on_zero() {
+    let mut src = any_blocks();
+    let g = rand_xorshift::XorShiftRng::from_rng(&mut src);
+    let k = first_nonzero(&src.b);
+    assert!(src.calls == k + 1);                                               // exactly the blocks drawn, no more
+    assert!(g == rand_xorshift::XorShiftRng::from_seed(src.b[k]));             // verbatim LE words of that block
+}
+#[kani::proof]
+#[kani::unwind(20)]
+fn xorshift_try_from_rng_agrees_or_fails() {
+    let mut src = TryBlocks { s: any_blocks(), err: E(kani::any()) };
+    src.s.fail_at = kani::any();
+    let k = first_nonzero(&src.s.b);
+    let r = rand_xorshift::XorShiftRng::try_from_rng(&mut src);
+    match r {
+        Ok(g) => {
+            assert!(src.s.fail_at > k);                                        // the source did not fail before block k was drawn
+            assert!(src.s.calls == k + 1);
+            assert!(g == rand_xorshift::XorShiftRng::from_seed(src.s.b[k]));   // same generator as from_rng
+        }
+        Err(e) => { assert!(src.s.fail_at <= k && e == src.err && src.s.calls == src.s.fail_at + 1); }
+    }
+}
